@@ -454,6 +454,8 @@ class Check(object):
     def gen(self, r, ctx):
         if self.long == 'medium':
             return self.gen_medium(r, ctx)
+        if self.long == 'quiet':
+            return self.gen_long(r, ctx, 'quiet-pairs')
         if self.long:
             return self.gen_long(r, ctx)
         npool = r.choice([4, 6, 10, 16, 30])
@@ -468,7 +470,7 @@ class Check(object):
             if op[0] in ('reverse', 'sort') and r.random() < 0.6:
                 # what comes right after a re-ordering matters: tail/head pops and index reads
                 ops.append(r.choice([['pop'], ['pop', ('i', 0.5)], ['pop', ('i', 0.999)], ['remove_at', 0.0]]))
-        return {'kind': 'short', 'ops': ops}
+        return {'kind': 'short', 'ops': ops, 'read_every': r.choice([1, 1, 1, 2, 3, 5])}
 
     def gen_medium(self, r, ctx):
         """48-400 items, deletions concentrated near the right-hand end and scattered elsewhere while the dead
@@ -532,15 +534,44 @@ class Check(object):
             for _ in range(r.randint(0, 12)):
                 ops.append(r.choice([['pop'], ['remove_at', r.random()], ['remove_at', 0.0], ['add', nxt + r.randint(1, 50)],
                                      ['pop', ('i', r.random())], ['reverse']]))
-        return {'kind': 'long', 'style': 'medium', 'ops': ops}
+        return {'kind': 'long', 'style': 'medium', 'ops': ops, 'read_every': r.choice([1, 1, 2, 3, 7, 17])}
 
-    def gen_long(self, r, ctx):
+    def gen_long(self, r, ctx, style=None):
         big = ctx is None or ctx.thorough
         size = r.randint(4000, 10000) if big else r.randint(1500, 4000)
-        style = r.choice(['scattered', 'scattered', 'cross-eighth', 'tail', 'alternating', 'mixed'])
+        style = style or r.choice(['scattered', 'scattered', 'cross-eighth', 'tail', 'alternating', 'mixed', 'quiet-pairs'])
         ops = [['update', [['list', list(range(size))]]]]
         live = list(range(size))
         nxt = size
+        if style == 'quiet-pairs':
+            # dozens of separate holes, then rounds of: a hole right in front of the last item (read), then TWO
+            # mutations with no read in between - a new isolated hole in the middle and pop() of the last item, which
+            # also trims the hole in front of it - and a read: the table of dead intervals has the same length and the
+            # same number of dead slots as at the previous read, but is a different table
+            size = r.choice([300, 600, 1000, 2000]) if not big else r.choice([600, 1000, 3000, 8000])
+            ops = [['update', [['list', list(range(size))]]]]
+            live = list(range(size))
+            stride = r.choice([11, 15, 20])
+            for x in range(r.randrange(3, 9), size - 40, stride)[:r.choice([34, 40, 60, 100])]:
+                ops.append(['noread', ['remove', x]])
+                live.remove(x)
+            for _ in range(r.randint(3, 12)):
+                if len(live) < 50:
+                    break
+                ops.append(['remove', live.pop(len(live) - 2)])
+                mid = [y for y in live[20:-20] if (y - 1) in live and (y + 1) in live]
+                if not mid:
+                    break
+                v = r.choice(mid)
+                live.remove(v)
+                ops.append(['noread', ['remove', v]])
+                ops.append(['pop'])
+                live.pop()
+                if r.random() < 0.3:
+                    ops.append(['add', nxt])
+                    live.append(nxt)
+                    nxt += 1
+            return {'kind': 'long', 'style': style, 'ops': ops}
         if style == 'scattered':
             # many separate one-slot holes while the dead fraction stays below 1/8: the >384-interval branch
             stride = r.choice([9, 10, 13])
@@ -579,7 +610,7 @@ class Check(object):
                         (op[0] in ('sort', 'reverse') and r.random() < 0.8):
                     op = ['remove', pool[0]] if r.random() < 0.7 else ['discard', pool[1]]
                 ops.append(op)
-        return {'kind': 'long', 'style': style, 'ops': ops}
+        return {'kind': 'long', 'style': style, 'ops': ops, 'read_every': r.choice([1, 2, 5, 17])}
 
     def run(self, h, stats=None):
         run = Run(stats)
@@ -587,6 +618,7 @@ class Check(object):
         long_ = h.get('kind') == 'long'
         rng = common.rng('C11-readout', len(h['ops']))
         maxints = 0
+        read_every = h.get('read_every', 1)
         for i, op in enumerate(h['ops']):
             op = list(op)
             if op[0] == 'pop' and len(op) > 1 and isinstance(op[1], (list, tuple)):
@@ -595,8 +627,17 @@ class Check(object):
                     op = ['pop']
                 else:
                     op = ['pop', int(op[1][1] * 2 * n) - n]      # a valid index in [-n, n)
+            noread = False
+            if op[0] == 'noread':
+                op, noread = list(op[1]), True
             try:
                 run.step(op)
+                if (noread or (read_every > 1 and (i + 1) % read_every)) and i != len(h['ops']) - 1:
+                    # several mutations in a row with no read in between (anything recomputed lazily on the next
+                    # look-up must still be recomputed then)
+                    if stats is not None:
+                        stats.count('steps_without_a_read')
+                    continue
                 run.check_derived()
                 if not long_ or len(run.L) <= 40:
                     run.readout(full=len(run.L) <= 40, rng=rng)
@@ -659,7 +700,7 @@ class Check(object):
             if f2 is not None and f2.cls() == cls:
                 return 'read:%s:on-freshly-built-set' % cls
         # a read disagrees: name the read and the kinds of mutators that remain in the shrunk history
-        kinds = sorted(set(o[0] for o in h['ops'][:f.step + 1] if o[0] in
+        kinds = sorted(set(o[0] for o in [x[1] if x[0] == 'noread' else x for x in h['ops'][:f.step + 1]] if o[0] in
                            ('remove', 'discard', 'pop', 'sort', 'reverse', 'clear', 'isub', 'iand', 'ixor',
                             'difference_update', 'intersection_update', 'symmetric_difference_update')))
         return 'read:%s:after:%s' % (cls, '+'.join(kinds) or 'inserts-only')
@@ -714,6 +755,7 @@ def run(ctx):
     explore(ctx, Check(False), n, 'short')
     explore(ctx, Check('medium'), {'quick': 150, 'thorough': 6000}[ctx.tier], 'medium')
     explore(ctx, Check(True), {'quick': 1, 'thorough': 20}[ctx.tier], 'long')
+    explore(ctx, Check('quiet'), {'quick': 2, 'thorough': 30}[ctx.tier], 'quiet')
 
 
 def replay(witness):
